@@ -98,7 +98,7 @@ def r1(ctx):
                             tied = True  # optimistic: conditional on the version that was read
                     if tied:
                         continue
-                    hit = p.state.discr.get(rres)
+                    hit = d2(p, rres)
                     owner = b.path
                     k = "%s:%s(%s)->%s" % (owner.replace("memcrs::memcache::store::", ""), rn, "hit" if hit == 0 else ("miss" if hit == 1 else "?"), wn)
                     pairs.setdefault(k, (owner, W))
